@@ -64,7 +64,9 @@ def impl_body(cfg, history, W):
                 elif e[0] == 'reset':
                     p.reset_batch()
                 elif e[0] == 'save':
-                    ckpts.append(copy.deepcopy(p.state_dict(include_factors=bool(e[1]))))
+                    # 'hold_state': the caller keeps the returned object alive (no copy at save time): it must still be the saved state later
+                    sd_ = p.state_dict(include_factors=bool(e[1]))
+                    ckpts.append(sd_ if cfg.get('hold_state') else copy.deepcopy(sd_))
                     rec['saved_keys'] = sorted(ckpts[-1].keys())
                 elif e[0] == 'load':
                     for m in model.modules():
